@@ -1,11 +1,13 @@
 HOOK_COMMITS = ["358b29f", "6cd9f5c", "5546540"]
-FIX_COMMITS = ["923416a", "a6cf66b"]
+FIX_COMMITS = ["923416a", "a6cf66b", "1830814", "c137568"]
 
 NOTES = ("All checks are ./check <id> --tier quick|thorough (runner/vrunner.py). Every engine is rebuilt "
          "incrementally from /repo's working tree with the hook guard on. Oracle = independent spec model "
          "spec/b3spec (anchored against a second Python model and the published vectors on every run).")
 
 ENGINES_DOC = [
+    {"name": "b3sum", "path": "engines/b3sum", "serves_properties": ["C12", "C13"],
+     "kind_free_text": "Rust; builds the real b3sum binary from /repo/b3sum/src/main.rs and includes the same file as a module to reach its private parser/printer; enumerates CLI invocations, checkfiles and paths"},
     {"name": "core", "path": "engines/core", "serves_properties": ["C01", "C02", "C03", "C09", "C10", "C11", "C14", "C15", "C16", "C17"],
      "kind_free_text": "Rust; drives the real blake3 crate (path dependency on /repo) with forced SIMD levels; bounded-exhaustive enumeration and explicit-state BFS over the real Hasher/OutputReader"},
 ]
@@ -77,6 +79,19 @@ CHECKS["C17"] = {
     "technique": "non-interference check over the explored state space: lock-step second lane with different secrets, Debug output and post-zeroize raw memory compared",
     "text": "Every state of the fine and a coarse Hasher exploration is reached in lock-step by a second hasher with a different key/context and different input bytes; {:?} and {:#?} must be byte-identical and contain no key/CV word. The same for OutputReader (positions x reads) and guts::ChunkState (every length). With the zeroize feature, Hasher and OutputReader objects built with two different secrets over 16 (quick) / 96 (thorough) shapes must have identical raw memory after zeroize() (offsets unstable between identically built objects are excluded and counted), and a zeroized Hash must be all zero.",
     "note": "Two fixed secret assignments per mode. Raw memory is read through a byte pointer.",
+}
+
+CHECKS["C12"] = {
+    "engine": "b3sum/cli", "category": "fault_enumeration", "design_ref": "DESIGN.md 3/C12",
+    "technique": "bounded-exhaustive enumeration of CLI flag combinations and of checkfile line-kind sequences on the real b3sum binary vs spec model",
+    "text": "The real b3sum binary (built from /repo/b3sum/src/main.rs) is run on files of nine sizes around the mmap threshold with all pairs of values (quick) / the full product (thorough) of mode, --length, --seek (up to 2^64-1-length), --no-mmap, --num-threads and output form, plus stdin input, key lengths and multi-file runs; stdout must be the spec stream S[seek..seek+length] in the documented form. --check is run on checkfiles enumerated as sequences of 15 line kinds (good plain/tag/escaped/CRLF/tag-with-spaces, stale, missing, eight malformed kinds) up to length 2 over all kinds and 3 over seven (quick; 3 and 4 thorough), with and without --quiet, and on all pairs of checkfiles: exit 0 iff every line is good, one OK/FAILED line per entry in order, one diagnostic per malformed line, the right warning count, never abnormal termination.",
+    "note": "b3sum cannot be built in place offline; it is compiled from the same source with clap (derive only) and a stand-in for `wild` equal to its Unix behaviour. File contents from stream B.",
+}
+CHECKS["C13"] = {
+    "engine": "b3sum/checkfile_format", "category": "exploration", "design_ref": "DESIGN.md 3/C13",
+    "technique": "bounded-exhaustive enumeration of paths and check lines through the real filepath_to_string / parse_check_line (included from main.rs) and the real binary, vs a reference printer/parser written from the documentation",
+    "text": "Every path of length 1..4 (quick) / 5 (thorough) over 13 symbols (space, backslash, LF, CR, parentheses, =, B, 0xFF, U+FFFD, a 2-byte character, NUL, a) plus seeds is printed by the real filepath_to_string in plain and --tag form with LF/CRLF/no terminator and parsed back by the real parse_check_line: the line must equal the documented format, the round trip must succeed exactly for representable paths, and no two paths may parse to the same path. Every single-character insert/replace/delete/duplicate (20 characters, every position) of 20 valid lines, multi-byte hash fields, and all strings up to length 3 / 4 over 12 characters are parsed: never a panic, Ok only with the result the documented format gives, b3sum's own output never rejected. The real binary then hashes ~190 / ~2200 real files with such names in both forms and --check is run on its output.",
+    "note": "Reference printer/parser (engines/b3sum/src/refmodel.rs) written from what_does_check_do.md and the property statement. Unix path semantics.",
 }
 
 NOT_APPLICABLE = {("C%02d" % i): PENDING for i in range(1, 19)}
